@@ -87,19 +87,17 @@ example : EntryWF ⟨typeAlarm, tagGroup, 0, 564742899, []⟩ :=
 
 /-! ## Well-formed ACLs are the reachable ones -/
 
-/-- The empty ACL is well-formed and `archive_acl_add_entry` keeps an ACL well-formed when it
-is called with one of the six ACL types and a C `int` id — whatever tag, permset and name it is
-given (invalid combinations are refused and change nothing). -/
+/-- The empty ACL is well-formed and `archive_acl_add_entry` keeps an ACL well-formed, whatever
+type, tag, permset, C `int` id and name it is given (what does not fit is refused and changes
+nothing): every ACL the API can build satisfies `WF`. -/
 theorem wf_reachable :
     WF {} ∧
     ∀ (acl : Acl) (ty pm tg : Nat) (id : Int) (nm : List Ch), WF acl →
-      IsPosix ty ∨ IsNfs4 ty → -2147483648 ≤ id ∧ id ≤ 2147483647 →
-      WF (addEntry acl ty pm tg id nm).1 :=
-  ⟨WF_empty, fun acl ty pm tg id nm hwf hty hid => addEntry_WF acl hwf ty pm tg id nm hty hid⟩
+      -2147483648 ≤ id ∧ id ≤ 2147483647 → WF (addEntry acl ty pm tg id nm).1 :=
+  ⟨WF_empty, fun acl ty pm tg id nm hwf hid => addEntry_WF acl hwf ty pm tg id nm hid⟩
 
-example : WF (addEntry (addEntry {} typeDefault 7 tagUser 1000 (str "bob")).1 typeDefault 5 tagMask (-1) []).1 :=
-  wf_reachable.2 _ _ _ _ _ _ (wf_reachable.2 _ _ _ _ _ _ wf_reachable.1 (Or.inl (Or.inr rfl)) (by decide))
-    (Or.inl (Or.inr rfl)) (by decide)
+example : WF (addEntry (addEntry {} typeDefault 7 tagUser 1000 (str "bob")).1 (typeAllow ||| typeDeny) 5 tagMask (-1) []).1 :=
+  wf_reachable.2 _ _ _ _ _ _ (wf_reachable.2 _ _ _ _ _ _ wf_reachable.1 (by decide)) (by decide)
 
 /-! ## `entry_roundtrip` -/
 
